@@ -1,6 +1,6 @@
 (** Extraction roots of the T2(c) check: program -> create_input -> flat -> code_sem beside doc_sem
     (drivers: extract/drv_docsem.ml for the program parser, extract/drv_t2.ml). *)
-From SP Require Design.Sem Design.Flat Design.DocSem Front.CreateFlat Front.PlainInput Front.PlainT2Final Encode.CodeSem Front.DerivedInput Front.DerivedGuard Front.DerivedCheck Design.SemEqvTB.
+From SP Require Design.Sem Design.Flat Design.DocSem Front.CreateFlat Front.PlainInput Front.PlainT2Final Encode.CodeSem Front.DerivedInput Front.DerivedGuard Front.DerivedCheck Design.SemEqvTB Front.DerivedGuard2.
 Definition roots := (Design.DocSem.doc_sem, Design.DocSem.doc_sem_block, Design.DocSem.doc_block,
                      Design.DocSem.window_params, Design.DocSem.is_complex, Design.DocSem.accepted_tables,
                      Front.PlainInput.plain_input, Front.PlainT2Final.t2_guard, Front.PlainInput.t2_flat, Front.PlainInput.t2_code_sem,
@@ -8,4 +8,5 @@ Definition roots := (Design.DocSem.doc_sem, Design.DocSem.doc_sem_block, Design.
                      Design.Sem.valid_b, Design.Flat.sustain_of, Design.Flat.fl_trials,
                      Front.DerivedInput.derived_input, Front.DerivedInput.derived_raises, Front.DerivedInput.t2d_flat,
                      Front.DerivedInput.t2d_code_sem, Front.DerivedGuard.t2d_guard,
-                     Front.DerivedCheck.t2d_check, Design.SemEqvTB.sem_eqv_tb).
+                     Front.DerivedCheck.t2d_check, Design.SemEqvTB.sem_eqv_tb,
+                     Front.DerivedGuard2.t2d_guard2).
